@@ -1,5 +1,5 @@
 // drv_expr.cpp -- C04 correspondence driver.
-// case line:  <expr units> <env> <tree (ignored here)>
+// case line:  [Q<quote code>:]<expr units> <env> <tree (ignored here)>
 //   env:  '-' or entries separated by ';' :  name:n:<dec>  name:i:<signed dec>  name:r:<m>_<e> (m * 2^e)
 //         name:s:<units separated by '.', or '-'>  name:t  name:f  name:z (null)  name:a (array)
 // output: ONE token   <eval>|<math>|<inline-if>|<if-block>
@@ -99,7 +99,15 @@ int main() {
     vf::for_each_line([](const std::string &line) -> std::string {
         auto tk = vf::split_ws(line);
         if (tk.size() < 2) return "BADCASE";
-        auto        units = vf::parse_list(tk[0]);
+        // optional prefix Q<code>: = the quote character of case=... in the two if forms (default '"')
+        char        quote = '"';
+        std::string utok  = tk[0];
+        if (!utok.empty() && utok[0] == 'Q') {
+            size_t c = utok.find(':');
+            quote    = (char)std::atoi(utok.substr(1, c - 1).c_str());
+            utok     = utok.substr(c + 1);
+        }
+        auto        units = vf::parse_list(utok);
         std::string expr;
         for (auto u : units) expr.push_back((char)u);
         Value<char> v;
@@ -147,8 +155,9 @@ int main() {
             for (char c : math) plain = plain && ((c >= '0' && c <= '9') || c == '-');
             mtok = plain ? math : ("?" + std::to_string(math.size()));
         }
-        std::string iif = one(render("{if case=\"" + expr + "\" true=\"1\" false=\"0\"}", v));
-        std::string bif = one(render("<if case=\"" + expr + "\">1<else>0</if>", v));
+        const std::string q(1, quote);
+        std::string iif = one(render("{if case=" + q + expr + q + " true=\"1\" false=\"0\"}", v));
+        std::string bif = one(render("<if case=" + q + expr + q + ">1<else>0</if>", v));
         return ev + "|" + mtok + "|" + iif + "|" + bif;
     });
     return 0;
